@@ -22,20 +22,30 @@ Lemma coversb_spec : forall r d, coversb r d = true <-> covers r d.
 Proof. intros r d. unfold coversb, covers. apply inclb_spec. Qed.
 
 (* ---- readers of nodes follow exactly the addresses message.WalkAddresses reports ---- *)
-Lemma node_loads_walk : forall n, node_loads n = walk_node n.
-Proof. intros n. destruct n; reflexivity. Qed.
+Lemma node_loads_walk : forall fl n, f_art_base fl = true -> node_loads n = walk_node fl n.
+Proof. intros fl n H. destruct n; cbn [node_loads walk_node]; rewrite ?H; reflexivity. Qed.
 
-Lemma opt_node_loads_walk : forall o, opt_node_loads o = walk_opt_node o.
-Proof. intros o. destruct o as [n|]; [apply node_loads_walk | reflexivity]. Qed.
+Lemma opt_node_loads_walk : forall fl o, f_art_base fl = true -> opt_node_loads o = walk_opt_node fl o.
+Proof. intros fl o H. destruct o as [n|]; [apply node_loads_walk; exact H | reflexivity]. Qed.
+
+(* nodes that can be embedded in another message (address maps, prolly nodes, vector nodes) and every node but
+   the artifact leaf: loads = walk for every walker version *)
+Lemma node_loads_walk_any : forall fl n, incl (node_loads n) (walk_node fl n ++ (match n with NArtifacts _ _ meta => if f_art_base fl then [] else meta | _ => [] end)).
+Proof.
+  intros fl n. destruct n; cbn [node_loads walk_node]; rewrite ?app_nil_r; try apply incl_refl.
+  destruct (f_art_base fl); intros x Hx; repeat (rewrite ?in_app_iff in *; cbn [In] in * ); tauto.
+Qed.
 
 Ltac inc :=
   unfold incl; let x := fresh "x" in let Hx := fresh "Hx" in
   intros x Hx; repeat (rewrite ?in_app_iff in *; cbn [In] in * ); tauto.
 
 Lemma complete_all : forall fl, complete fl = true ->
-  f_rebase_pre fl = true /\ f_rebase_onto fl = true /\ f_merge_prehead fl = true /\ f_merge_pending fl = true.
+  f_rebase_pre fl = true /\ f_rebase_onto fl = true /\ f_merge_prehead fl = true /\ f_merge_pending fl = true
+  /\ f_art_base fl = true.
 Proof.
   intros fl H. unfold complete in H.
+  apply andb_prop in H. destruct H as [H He].
   apply andb_prop in H. destruct H as [H Hd].
   apply andb_prop in H. destruct H as [H Hc].
   apply andb_prop in H. destruct H as [Ha Hb]. auto.
@@ -45,43 +55,49 @@ Qed.
 Theorem walk_covers_loads_complete :
   forall fl, complete fl = true -> forall m, incl (loads m) (walk_addrs fl m).
 Proof.
-  intros fl Hc m. destruct (complete_all fl Hc) as [Ha [Hb [Hcc Hd]]].
+  intros fl Hc m. destruct (complete_all fl Hc) as [Ha [Hb [Hcc [Hd He]]]].
   destruct m as [am|am|r|sr hc|c|w st ms rs|t fk|sch cf viol art sec prim|ps r cl|k|n]; cbn [loads walk_addrs].
-  - rewrite opt_node_loads_walk. apply incl_refl.
-  - rewrite opt_node_loads_walk. apply incl_refl.
+  - rewrite (opt_node_loads_walk fl _ He). apply incl_refl.
+  - rewrite (opt_node_loads_walk fl _ He). apply incl_refl.
   - apply incl_refl.
   - apply incl_refl.
   - apply incl_refl.
   - unfold walk_merge_state, walk_rebase_state, merge_state_loads, rebase_state_loads.
     rewrite Ha, Hb, Hcc, Hd. destruct ms as [s|]; destruct rs as [r|]; inc.
-  - rewrite node_loads_walk. apply incl_refl.
-  - rewrite !node_loads_walk. apply incl_refl.
+  - rewrite (node_loads_walk fl _ He). apply incl_refl.
+  - rewrite !(node_loads_walk fl _ He). apply incl_refl.
   - apply incl_refl.
   - apply incl_refl.
-  - rewrite node_loads_walk. apply incl_refl.
+  - rewrite (node_loads_walk fl _ He). apply incl_refl.
 Qed.
 
 (* ---- headline 2 (holds for every walker version): the only addresses that can be missing are the
    working-set fields switched off in the flags ---- *)
+Lemma node_any : forall fl n x, In x (node_loads n) -> In x (walk_node fl n) \/ In x (node_omitted fl n).
+Proof.
+  intros fl n x H. destruct n; cbn [node_loads walk_node node_omitted] in *; try (left; exact H).
+  destruct (f_art_base fl); repeat (rewrite ?in_app_iff in *; cbn [In] in * ); tauto.
+Qed.
+
+Lemma opt_node_any : forall fl o x, In x (opt_node_loads o) -> In x (walk_opt_node fl o) \/ In x (opt_node_omitted fl o).
+Proof. intros fl o x H. destruct o as [n|]; [apply node_any; exact H | destruct H]. Qed.
+
 Theorem walk_covers_loads_partial :
   forall fl m, incl (loads m) (walk_addrs fl m ++ omitted fl m).
 Proof.
   intros fl m.
   destruct m as [am|am|r|sr hc|c|w st ms rs|t fk|sch cf viol art sec prim|ps r cl|k|n]; cbn [loads walk_addrs omitted];
-    rewrite ?app_nil_r.
-  - rewrite opt_node_loads_walk. apply incl_refl.
-  - rewrite opt_node_loads_walk. apply incl_refl.
-  - apply incl_refl.
-  - apply incl_refl.
-  - apply incl_refl.
+    rewrite ?app_nil_r; try apply incl_refl.
+  - intros x Hx. apply in_or_app. apply opt_node_any. exact Hx.
+  - intros x Hx. apply in_or_app. apply opt_node_any. exact Hx.
   - unfold walk_merge_state, walk_rebase_state, merge_state_loads, rebase_state_loads.
-    destruct fl as [a b c d]; cbn [f_rebase_pre f_rebase_onto f_merge_prehead f_merge_pending].
+    destruct fl as [a b c d e]; cbn [f_rebase_pre f_rebase_onto f_merge_prehead f_merge_pending].
     destruct ms as [s|]; destruct rs as [r|]; destruct a, b, c, d; inc.
-  - rewrite node_loads_walk. apply incl_refl.
-  - rewrite !node_loads_walk. apply incl_refl.
-  - apply incl_refl.
-  - apply incl_refl.
-  - rewrite node_loads_walk. apply incl_refl.
+  - intros x Hx. pose proof (node_any fl t x) as Ht.
+    repeat (rewrite ?in_app_iff in *; cbn [In] in * ). tauto.
+  - intros x Hx. pose proof (node_any fl sec x) as Hs. pose proof (node_any fl prim x) as Hp.
+    repeat (rewrite ?in_app_iff in *; cbn [In] in * ). tauto.
+  - intros x Hx. apply in_or_app. apply node_any. exact Hx.
 Qed.
 
 Corollary walk_covers_loads_when_nothing_omitted :
@@ -97,11 +113,16 @@ Definition refutation_witness : msg :=
     (Some {| ms_pre_working := 3; ms_from_commit := 4; ms_pre_head := Some 5; ms_pending := [6] |})
     (Some {| rs_pre_working := 7; rs_onto := 8 |}).
 
+(* a conflict-artifact leaf whose value records a base root-ish *)
+Definition artifact_witness : msg := MNode (NArtifacts [] [1] [2]).
+
 Theorem walk_covers_loads_refuted :
   forall fl, complete fl = false -> exists m, ~ incl (loads m) (walk_addrs fl m).
 Proof.
-  intros fl H. exists refutation_witness. intro Hi. apply inclb_spec in Hi.
-  destruct fl as [a b c d]. destruct a, b, c, d; try discriminate H; vm_compute in Hi; discriminate Hi.
+  intros fl H. destruct fl as [a b c d e]. destruct e.
+  - exists refutation_witness. intro Hi. apply inclb_spec in Hi.
+    destruct a, b, c, d; try discriminate H; vm_compute in Hi; discriminate Hi.
+  - exists artifact_witness. intro Hi. apply inclb_spec in Hi. vm_compute in Hi. discriminate Hi.
 Qed.
 
 (* the smaller, per-field witnesses that the harness replays on the real code *)
@@ -146,7 +167,7 @@ Ltac field_tac :=
   destruct m as [am|am|r|sr hc|c|w st ms rs|t fk|sch cf viol art sec prim|ps r cl|k|n];
   try (apply incl_nil_l);
   cbn [walk_addrs ms_of rs_of];
-  rewrite ?opt_node_loads_walk, ?node_loads_walk;
+  try rewrite (opt_node_loads_walk fl _ Hf); try rewrite !(node_loads_walk fl _ Hf);
   try (destruct n; try apply incl_nil_l; cbn [walk_node]);
   try (destruct ms as [s|]; try apply incl_nil_l);
   try (destruct rs as [r|]; try apply incl_nil_l);
@@ -205,7 +226,7 @@ Proof.
   intros fl Hc t f k h Hin.
   destruct (walk_covers_schema t f k h Hin) as [hf [E [_ [_ Hw]]]].
   exists hf. split; [exact E|]. intros m. apply Hw.
-  destruct (complete_all fl Hc) as [Ha [Hb [Hcc Hd]]].
+  destruct (complete_all fl Hc) as [Ha [Hb [Hcc [Hd He]]]].
   pose proof (find_hand_In t f hf E) as HI. unfold hand_fields in HI. cbn [In] in HI.
   repeat (destruct HI as [HI|HI]; [subst hf; cbn [h_flag always]; auto|]). contradiction.
 Qed.
@@ -221,5 +242,5 @@ Proof.
 Qed.
 
 (* non-vacuity: both kinds of flags exist; today's source gives the incomplete kind or the complete kind *)
-Example complete_flags_exist : complete {| f_rebase_pre := true; f_rebase_onto := true; f_merge_prehead := true; f_merge_pending := true |} = true.
+Example complete_flags_exist : complete {| f_rebase_pre := true; f_rebase_onto := true; f_merge_prehead := true; f_merge_pending := true; f_art_base := true |} = true.
 Proof. reflexivity. Qed.
